@@ -105,13 +105,13 @@ def driven_skeleton(sc, ctx_flags=0):
                 ("fd_reg", DRV, KICK, 0, 1), ("start", DRV)]
 
 
-def driven_finish(sc, steps, quit_code=None, rng=None, teardown=True, slots=None, drop_order=None, last_ops=()):
+def driven_finish(sc, steps, quit_code=None, rng=None, teardown=True, slots=None, drop_order=None, last_ops=(), after_quit=()):
     """install steps into the driver's handler scripts and append loop + teardown to main"""
     code = quit_code if quit_code is not None else (rng.randrange(0, 200) if rng else 0)
     for k, ops in enumerate(steps):
         sc.cb(DRV, "evt", k, ops)
     twice = [("ctx_quit", rng.randrange(0, 256))] if (rng and rng.random() < 0.3) else []    # the last request wins
-    sc.cb(DRV, "evt", len(steps), list(last_ops) + twice + [("ctx_quit", code)])
+    sc.cb(DRV, "evt", len(steps), list(last_ops) + twice + [("ctx_quit", code)] + list(after_quit))
     sc.cb(DRV, "evt", "*", [("ctx_quit", code)])
     sc.main.append(("LOOP",))
     sc.meta["quit_code"] = code
@@ -874,6 +874,37 @@ def gen_sysnotif(seed, mode="loop"):
     return sc
 
 
+def gen_tick_rearm(seed, mode="loop"):
+    """C19: the context tick is re-configured while the loop runs (short -> long period, off and on again) and the run then lasts
+    several short periods of real time: the notifications must follow the period configured last"""
+    r = random.Random(seed * 71 + 47)
+    sc = Sc(mode, "tick re-armed while looping seed=%d" % seed)
+    driven_skeleton(sc)
+    sc.mod(1, "watch", 0, 0)
+    sc.cb(1, "evt", "*", [])
+    t_tick = sc.topic("LIBMODULE_CTX_TICK")
+    sc.main += [("reg", 1), ("start", 1), ("sub", 1, t_tick, 0, sc.ud())]
+    short = r.choice([1000000, 2000000])
+    long_ = r.choice([40000000, 60000000, 100000000])
+    where = r.choice(["before_loop", "in_loop"])
+    steps = []
+    if where == "before_loop":
+        sc.main.append(("ctx_tick", short))
+    else:
+        steps.append([("ctx_tick", short)])
+    for _ in range(r.randrange(2, 5)):
+        steps.append([("sleep", 1500)])
+    if r.random() < 0.3:
+        steps.append([("ctx_tick", 0)])
+        steps.append([("sleep", 1500)])
+    steps.append([("ctx_tick", long_)])
+    for _ in range(r.randrange(10, 16)):
+        steps.append([("sleep", 2000)])
+    driven_finish(sc, steps, rng=r)
+    finalize_main(sc)
+    return sc
+
+
 def gen_sources(seed, mode="loop"):
     """C03/C20: descriptor, timer, signal and task sources; 1..100 descriptors ready in one poll batch; errno poisoned by
     every callback; runs normally end with enough empty steps for everything produced to be consumed (conservation)"""
@@ -1236,6 +1267,11 @@ def gen_stash_become(seed, mode="loop"):
     sc.main += [("fd_open", 1, 0, 0), ("fd_reg", T, 1, 0, sc.ud())]
     sc.meta["max_ufd"] = 4
     nmax = [1, 2, 3, -1, 1, 2, 5, 64]
+    # a third of the scenarios throttle the target: stash/unstash/become/unbecome each cost a token, a call refused for
+    # lack of one (-EAGAIN) must leave stash and handler stack exactly as they were
+    throttled = r.random() < 0.35
+    if throttled:
+        sc.main.append(("tb", T, r.choice([1, 2, 5]), r.choice([1, 2, 3, 4])))
 
     def hops():
         ops = []
@@ -1272,6 +1308,8 @@ def gen_stash_become(seed, mode="loop"):
                 ops.append(("unbecome", T))
             elif x < 0.92:
                 ops.append((r.choice(["pause", "resume"]), T))
+            elif throttled and x < 0.94:
+                ops.append(("tb", T, r.choice([0, 1, 3]), r.choice([1, 2, 5])))
             elif x < 0.96:
                 ops += [("stop", T)]
             else:
@@ -1343,7 +1381,12 @@ def gen_perms(seed, mode="loop"):
         if late and r.random() < 0.4:
             ops.append(("reg", late.pop()))
         steps.append(ops)
-    driven_finish(sc, steps, rng=r, quit_code=r.randrange(0, 100))
+    # between m_ctx_quit() and the actual end of the loop the context still loops: persistent modules stay protected
+    pers = [i for i in range(1, nm + 1) if sc.mods[i][1] & MOD_PERSIST]
+    aq = []
+    if pers and r.random() < 0.6:
+        aq = [("dereg", i) for i in r.sample(pers, r.randrange(1, len(pers) + 1))] + [("ctx_len",)]
+    driven_finish(sc, steps, rng=r, quit_code=r.randrange(0, 100), after_quit=aq)
     finalize_main(sc)
     return sc
 
@@ -1364,9 +1407,10 @@ def gen_ctxlife(seed, mode="loop"):
         s_ = slot[0]
         slot[0] += 1
         sc.mod(s_, name, flags, r.choice([0, 4, 6, 7, 2]) if hooks is None else hooks)
+        again = [("ctx_register", r.choice([0, 1, 3]), r.choice([0, CTX_PERSIST]))]     # the thread already has one: refused
         for k in ("eval", "start"):
-            sc.cb(s_, k, "*", [], ret=1)
-        sc.cb(s_, "stop", "*", [("ctx_deregister",)] if r.random() < p_teardown_in_stop else ([("ctx_len",)] if r.random() < 0.2 else []))
+            sc.cb(s_, k, "*", again if r.random() < 0.15 else [], ret=1)
+        sc.cb(s_, "stop", "*", [("ctx_deregister",)] if r.random() < p_teardown_in_stop else ([("ctx_len",)] if r.random() < 0.2 else (again if r.random() < 0.2 else [])))
         sc.cb(s_, "evt", "*", [])
         return s_
     no_ctx_calls = [("ctx_len",), ("ctx_name",), ("ctx_stats",), ("ctx_quit", 3), ("ctx_fd",), ("ctx_tick", 1000000), ("ctx_finalize",),
@@ -1397,7 +1441,7 @@ def gen_ctxlife(seed, mode="loop"):
             zombies.append(a_)
             mods.append(b_)
         for _ in range(r.randrange(0, 7)):
-            s_ = fresh("c%dm%d" % (cy, len(mods)), r.choice([0, 0, MOD_NAME_DUP, MOD_UD_AUTOFREE, MOD_PERSIST]))
+            s_ = fresh("c%dm%d" % (cy, len(mods)), r.choice([0, 0, MOD_NAME_DUP, MOD_UD_AUTOFREE, MOD_PERSIST, MOD_DENY_CTX, MOD_DENY_CTX | MOD_DENY_PUB]))
             sc.main.append(("reg", s_))
             mods.append(s_)
             x = r.random()
